@@ -69,6 +69,22 @@ def extract_constants(c):
         c.broken.append("proof obligation: the dt sign assignment of reb_simulation_integrate_raw was not found")
     K["syncFirst"] = int(bool(asg) and "reb_simulation_synchronize" in blk[:asg.start()])
     c.cov["integrate_entry_variant"] = "synchronises before flipping dt" if K["syncFirst"] else "as found (flips the sign of dt without synchronising: C09-integrate-reverse)"
+    # SABA source variants: (1) which N_active do the transformation calls of integrator_saba.c pass,
+    # (2) is the keep_unsynchronized copy taken inside the is_synchronized test (see RV.Sync.SabaConfig)
+    calls = re.findall(r"reb_particles_transform_\w+\(([^;]*?)\);", saba)
+    nn = sum(1 for a in calls if re.search(r",\s*N\s*,\s*N\s*$", a))
+    na = sum(1 for a in calls if re.search(r",\s*N\s*,\s*N_active\s*$", a))
+    c.cov["saba_transformation_calls"] = {"N,N": nn, "N,N_active": na}
+    if len(calls) != 7 or not (nn == 7 or na == 7):
+        c.broken.append("proof obligation: integrator_saba.c transformation calls: %d found, %d with (N,N), %d with (N,N_active); expected 7 of one kind" % (len(calls), nn, na))
+    K["sabaSplit"] = int(na == 7)
+    ms = re.search(r"void reb_integrator_saba_synchronize\(.*?\n\}", saba, flags=re.S)
+    sb = ms.group(0) if ms else ""
+    i_if, i_cp = sb.find("is_synchronized == 0"), sb.find("memcpy(sync_pj")
+    if i_if < 0 or i_cp < 0:
+        c.broken.append("proof obligation: reb_integrator_saba_synchronize: is_synchronized test / p_jh copy not found")
+    K["copyInside"] = int(0 <= i_if < i_cp)
+    c.cov["saba_sync_copy_variant"] = "inside the is_synchronized test" if K["copyInside"] else "before the test (F19)"
     K["SC"] = table("reb_saba_c", True)
     K["SD"] = table("reb_saba_d", True)
     K["SCC"] = table("reb_saba_cc", False)
@@ -327,13 +343,13 @@ class World:
                     s.gravity_ignore = 1
             elif name == "posJA":
                 lib.reb_particles_transform_jacobi_to_inertial_pos(s._particles, s.ri_whfast._p_jh, s._particles,
-                                                                   ctypes.c_uint(N), ctypes.c_uint(N))
+                                                                   ctypes.c_uint(N), ctypes.c_uint(nact if K["sabaSplit"] else N))
             elif name == "jacAccA":
                 lib.reb_particles_transform_inertial_to_jacobi_acc(s._particles, s.ri_whfast._p_jh, s._particles,
-                                                                   ctypes.c_uint(N), ctypes.c_uint(N))
+                                                                   ctypes.c_uint(N), ctypes.c_uint(nact if K["sabaSplit"] else N))
             elif name == "toIA":
                 lib.reb_particles_transform_jacobi_to_inertial_posvel(s._particles, s.ri_whfast._p_jh, s._particles,
-                                                                      ctypes.c_uint(N), ctypes.c_uint(N))
+                                                                      ctypes.c_uint(N), ctypes.c_uint(nact if K["sabaSplit"] else N))
             elif name == "sabaFold":
                 pj, pp = s.ri_whfast._p_jh, s._particles
                 pre = dt * dt
@@ -505,7 +521,7 @@ def replay(c, W, exe, ncases, family):
             o = dict(type=rng.choice(sorted(SABA_ROWS)), safe=int(mode == "safe"), keep=int(mode == "keep"))
             if rng.chance(0.7):
                 system["N_active"], system["testparticle_type"] = -1, 0
-            lines.append("S %d %d %d 1 0 0 %s" % (o["type"], o["safe"], o["keep"], " ".join(toks)))
+            lines.append("S %d %d %d %d 1 0 0 %s" % (o["type"], o["safe"], o["keep"], W.K["copyInside"], " ".join(toks)))
             setup = saba_setup(o)
             key = (o["type"], o["safe"], o["keep"])
         cases.append((o, system, ops, setup, key, toks))
@@ -916,6 +932,8 @@ def api_sequences(c, W, cfgs):
                     plan.append(("sync",))
                 else:
                     kind = rng.choice(["lt", "lt", "lt", "eq", "gt", "gt", "rev", "zero"])
+                    if integ == "eos" and kind == "rev":
+                        kind = "gt"   # going back cancels the reversible scheme's own error: no truncation yardstick
                     plan.append(("integrate", kind, rng.uniform(0.05, 0.95), 1 if integ == "eos" else int(rng.chance(0.65))))
             if not any(p[0] == "integrate" for p in plan):
                 plan.append(("integrate", "lt", 0.4, 1))
@@ -1006,7 +1024,8 @@ def search(c, W):
             is_c2 = "c2=1" in label
             if is_c2:
                 # make the second corrector non-negligible (it is O(eps^2 dt^4)): Jupiter-mass planets
-                system["particles"] = [p if (i == 0 or p[0] == 0.0) else (3e-3,) + p[1:] for i, p in enumerate(system["particles"])]
+                system["particles"] = [p if (i == 0 or p[0] == 0.0) else (1e-3 * system["particles"][0][0],) + p[1:]
+                                       for i, p in enumerate(system["particles"])]
             # ---------------- (i) interruptions do not change a bit
             mode = "keep" if has_keep else "unsafe"
             for rep in range(3 if c.thorough else 2):
@@ -1093,7 +1112,25 @@ def search(c, W):
                 tol_end = 2e-12 * nsteps_phys      # rounding allowance grows with the number of steps (3e-10 / 1e-9)
                 if err > tol_end and chaotic:
                     c.cov["inconclusive_chaotic_runs"] = c.cov.get("inconclusive_chaotic_runs", 0) + 1
-                if not err_early <= 1e-11 or (not err <= tol_end and not chaotic):
+                bad = not err_early <= 1e-11 or (not err <= tol_end and not chaotic)
+                if bad and err_early <= 1e-10:
+                    # borderline: measure the chaos directly — does a last-bit perturbation of the safe run grow
+                    # to a comparable size?  (a defect of the size of F18 or of the seeded bugs is >= 1e-10 early)
+                    sp = dict(system)
+                    sp["particles"] = [p if i != 1 else (p[0], p[1] * (1 + 2.0 ** -50)) + tuple(p[2:]) for i, p in enumerate(system["particles"])]
+                    Ap = W.sim(sp, integ, mk("safe"))
+                    e50 = None
+                    for k in range(nsteps_phys):
+                        W.lib.reb_simulation_step(ctypes.byref(Ap))
+                        if k == n_early - 1:
+                            e50 = None
+                    eend = reldiff(ca, coords(W, Ap))[0]
+                    c.cov.setdefault("chaos_controls", []).append({"label": label, "difference": err, "difference_after_50": err_early,
+                                                                   "last_bit_perturbation_grows_to": eend})
+                    if eend >= 1e-3 * err and err_early <= 3e-11:
+                        bad = False
+                        c.cov["inconclusive_chaotic_runs"] = c.cov.get("inconclusive_chaotic_runs", 0) + 1
+                if bad:
                     c.violation("F18:whfast-corrector2-not-inverse" if is_c2 else "safe-unsafe:" + label.split()[0], "%s: unsafe mode + final synchronize differs from safe mode by %.3g relative after %d steps"
                                 % (label, err, nsteps_phys),
                                 {"integrator": integ, "label": label, "system": system, "steps": nsteps_phys,
